@@ -89,11 +89,11 @@ Proof.
   split; apply c12_eqs_eq; assumption.
 Qed.
 
-Lemma c12_classify_blank : forall b, c12_blankb b = true -> c12_classify b = C12Skip.
-Proof. intros b H. unfold c12_classify. rewrite (c12_ltrim_blank b H). reflexivity. Qed.
+Lemma c12_classify_blank : forall qhash b, c12_blankb b = true -> c12_classify qhash b = C12Skip.
+Proof. intros qhash b H. unfold c12_classify. rewrite (c12_ltrim_blank b H). reflexivity. Qed.
 
-Lemma c12_classify_comment : forall b text, c12_blankb b = true -> c12_classify (b ++ "#" :: text) = C12Skip.
-Proof. intros b text H. unfold c12_classify. rewrite (c12_ltrim_blank_app b _ H). reflexivity. Qed.
+Lemma c12_classify_comment : forall qhash b text, c12_blankb b = true -> c12_classify qhash (b ++ "#" :: text) = C12Skip.
+Proof. intros qhash b text H. unfold c12_classify. rewrite (c12_ltrim_blank_app b _ H). reflexivity. Qed.
 
 Lemma c12_trim_name : forall name b2, c12_tightb name = true -> c12_blankb b2 = true ->
   c12_rtrim (c12_ltrim (name ++ b2)) = name.
@@ -105,12 +105,12 @@ Proof.
     rewrite (c12_rtrim_app_blank _ _ Hb). exact Hr.
 Qed.
 
-Lemma c12_classify_header : forall b0 b1 name b2 trail,
+Lemma c12_classify_header : forall qhash b0 b1 name b2 trail,
   c12_sline_ok (C12SHeader b0 b1 name b2 trail) = true ->
-  c12_classify (b0 ++ "[" :: b1 ++ name ++ b2 ++ "]" :: trail) =
+  c12_classify qhash (b0 ++ "[" :: b1 ++ name ++ b2 ++ "]" :: trail) =
   C12Prefix (if c12_is_nil name then [] else name ++ ["."]).
 Proof.
-  intros b0 b1 name b2 trail H. cbn [c12_sline_ok] in H.
+  intros qhash b0 b1 name b2 trail H. cbn [c12_sline_ok] in H.
   repeat (apply andb_true_iff in H as [H ?]).
   rename H into Hb0, H3 into Hb1, H2 into Hb2, H1 into Ht, H0 into Hn.
   unfold c12_classify. rewrite (c12_ltrim_blank_app b0 _ Hb0).
@@ -126,12 +126,19 @@ Proof.
 Qed.
 
 (* key part, '=', and a right-hand side W (no '#') followed by an optional comment *)
-Lemma c12_classify_assign_gen : forall b0 key b1 b2 W comment,
+Lemma c12_classify_assign_shape : forall qhash b0 key b1 b2 W comment,
   c12_blankb b0 = true -> c12_blankb b1 = true -> c12_blankb b2 = true -> c12_key_ok key = true ->
   c12_nochar "#" W = true -> c12_comment_ok comment = true ->
-  c12_classify (b0 ++ key ++ b1 ++ "=" :: b2 ++ W ++ comment) = C12Assign key (c12_ltrim W).
+  c12_classify qhash (b0 ++ key ++ b1 ++ "=" :: b2 ++ W ++ comment) =
+  if qhash then
+    match c12_ltrim (W ++ comment) with
+    | q :: v1 => if c12_is_quote q then C12Assign key (q :: c12_cut_qcomment q [] v1)
+                 else C12Assign key (c12_ltrim W)
+    | [] => C12Assign key (c12_ltrim W)
+    end
+  else C12Assign key (c12_ltrim W).
 Proof.
-  intros b0 key b1 b2 W comment Hb0 Hb1 Hb2 Hk HW Hc. unfold c12_key_ok in Hk.
+  intros qhash b0 key b1 b2 W comment Hb0 Hb1 Hb2 Hk HW Hc. unfold c12_key_ok in Hk.
   repeat (apply andb_true_iff in Hk as [Hk ?]).
   rename Hk into Hkne, H2 into Hkt, H1 into Hkeq, H0 into Hkh, H into Hkbr.
   destruct key as [|k0 key']; [discriminate|].
@@ -145,6 +152,12 @@ Proof.
   change (k0 :: key' ++ b1 ++ "=" :: b2 ++ W ++ comment)
     with ((k0 :: key') ++ b1 ++ "=" :: b2 ++ W ++ comment).
   set (key := k0 :: key') in *.
+  assert (Hnoe : c12_nochar "=" (key ++ b1) = true).
+  { rewrite c12_no_app, Hkeq, (c12_blank_no "=" b1 c12_ws_not_eq Hb1). reflexivity. }
+  assert (Hfull : c12_split_at "=" (key ++ b1 ++ "=" :: b2 ++ W ++ comment) = Some (key ++ b1, b2 ++ W ++ comment)).
+  { replace (key ++ b1 ++ "=" :: b2 ++ W ++ comment) with ((key ++ b1) ++ "=" :: b2 ++ W ++ comment)
+      by (now rewrite <- !app_assoc). apply c12_split_at_app. exact Hnoe. }
+  rewrite Hfull.
   replace (key ++ b1 ++ "=" :: b2 ++ W ++ comment)
     with ((key ++ b1 ++ "=" :: b2 ++ W) ++ comment)
     by (rewrite <- !app_assoc; cbn [app]; now rewrite <- !app_assoc).
@@ -158,11 +171,54 @@ Proof.
   rewrite Hcb, app_nil_r.
   replace (key ++ b1 ++ "=" :: b2 ++ W) with ((key ++ b1) ++ "=" :: b2 ++ W)
     by (now rewrite <- !app_assoc).
-  assert (Hnoe : c12_nochar "=" (key ++ b1) = true).
-  { rewrite c12_no_app, Hkeq, (c12_blank_no "=" b1 c12_ws_not_eq Hb1). reflexivity. }
   rewrite (c12_split_at_app "=" _ _ Hnoe).
   subst key. rewrite (c12_trim_name _ b1 Hkt Hb1).
-  rewrite (c12_ltrim_blank_app b2 _ Hb2). reflexivity.
+  rewrite !(c12_ltrim_blank_app b2 _ Hb2). reflexivity.
+Qed.
+
+Lemma c12_cut_nohash : forall q X acc rest, c12_nochar "#" X = true ->
+  c12_cut_qcomment q acc (X ++ rest) = c12_cut_qcomment q (acc ++ X) rest.
+Proof.
+  induction X as [|x X IH]; intros acc rest H.
+  - rewrite app_nil_r. reflexivity.
+  - cbn in H. apply andb_true_iff in H as [H1 H2]. apply negb_true_iff in H1.
+    cbn [app c12_cut_qcomment]. rewrite H1. cbn [andb]. rewrite (IH _ _ H2), <- app_assoc. reflexivity.
+Qed.
+
+(* plain right-hand side: both variants of the comment search agree *)
+Lemma c12_classify_assign_plain : forall qhash b0 key b1 b2 W comment,
+  c12_blankb b0 = true -> c12_blankb b1 = true -> c12_blankb b2 = true -> c12_key_ok key = true ->
+  c12_nochar "#" W = true -> c12_comment_ok comment = true ->
+  match c12_ltrim (W ++ comment) with q :: _ => c12_is_quote q = false | [] => True end ->
+  c12_classify qhash (b0 ++ key ++ b1 ++ "=" :: b2 ++ W ++ comment) = C12Assign key (c12_ltrim W).
+Proof.
+  intros qhash b0 key b1 b2 W comment Hb0 Hb1 Hb2 Hk HW Hc Hq.
+  rewrite c12_classify_assign_shape by assumption. destruct qhash; [|reflexivity].
+  destruct (c12_ltrim (W ++ comment)) as [|q v1]; [reflexivity|]. rewrite Hq. reflexivity.
+Qed.
+
+(* quoted right-hand side q X, closed on this line when a comment follows *)
+Lemma c12_classify_assign_quoted : forall qhash b0 key b1 b2 q X comment,
+  c12_blankb b0 = true -> c12_blankb b1 = true -> c12_blankb b2 = true -> c12_key_ok key = true ->
+  c12_is_quote q = true -> c12_nochar "#" X = true -> c12_comment_ok comment = true ->
+  (comment = [] \/ c12_last_opt (c12_rtrim X) = Some q) ->
+  c12_classify qhash (b0 ++ key ++ b1 ++ "=" :: b2 ++ (q :: X) ++ comment) = C12Assign key (q :: X).
+Proof.
+  intros qhash b0 key b1 b2 q X comment Hb0 Hb1 Hb2 Hk Hq HX Hc Hcl.
+  assert (Hqh : Ascii.eqb q "#" = false).
+  { unfold c12_is_quote in Hq. apply orb_true_iff in Hq as [Hq|Hq]; apply Ascii.eqb_eq in Hq; subst; reflexivity. }
+  assert (HW : c12_nochar "#" (q :: X) = true).
+  { cbn [c12_nochar forallb]. fold (c12_nochar "#" X). rewrite Hqh, HX. reflexivity. }
+  assert (Hqws : c12_is_ws q = false).
+  { unfold c12_is_quote in Hq. apply orb_true_iff in Hq as [Hq|Hq]; apply Ascii.eqb_eq in Hq; subst; reflexivity. }
+  assert (Hlt : forall s, c12_ltrim (q :: s) = q :: s).
+  { intros s. unfold c12_ltrim. cbn. rewrite Hqws. reflexivity. }
+  rewrite c12_classify_assign_shape by assumption. rewrite Hlt.
+  destruct qhash; [|reflexivity].
+  cbn [app]. rewrite Hlt, Hq. f_equal. f_equal.
+  rewrite (c12_cut_nohash q X [] comment HX). cbn [app].
+  destruct comment as [|c cm]; [reflexivity|]. cbn in Hc. cbn [c12_cut_qcomment]. rewrite Hc.
+  destruct Hcl as [Hcl|Hcl]; [discriminate|]. rewrite Hcl, Ascii.eqb_refl. reflexivity.
 Qed.
 
 Lemma c12_value_plain : forall value b3 rest ub,
@@ -263,21 +319,21 @@ Qed.
 
 Definition c12_ts (r : c12_ini_result) : c12_tree * c12_status := (c12_ir_tree r, c12_ir_status r).
 
-Lemma c12_loop_skip : forall fuel line rest pt prefix seen ow ub,
-  c12_classify line = C12Skip ->
-  c12_ts (c12_ini_loop (S fuel) (line :: rest) pt prefix seen ow ub) = c12_ts (c12_ini_loop fuel rest pt prefix seen ow ub).
+Lemma c12_loop_skip : forall qhash fuel line rest pt prefix seen ow ub,
+  c12_classify qhash line = C12Skip ->
+  c12_ts (c12_ini_loop qhash (S fuel) (line :: rest) pt prefix seen ow ub) = c12_ts (c12_ini_loop qhash fuel rest pt prefix seen ow ub).
 Proof. intros. cbn [c12_ini_loop]. rewrite H. reflexivity. Qed.
 
-Lemma c12_loop_prefix : forall fuel line rest pt prefix seen ow ub p,
-  c12_classify line = C12Prefix p ->
-  c12_ts (c12_ini_loop (S fuel) (line :: rest) pt prefix seen ow ub) = c12_ts (c12_ini_loop fuel rest pt p seen ow ub).
+Lemma c12_loop_prefix : forall qhash fuel line rest pt prefix seen ow ub p,
+  c12_classify qhash line = C12Prefix p ->
+  c12_ts (c12_ini_loop qhash (S fuel) (line :: rest) pt prefix seen ow ub) = c12_ts (c12_ini_loop qhash fuel rest pt p seen ow ub).
 Proof. intros. cbn [c12_ini_loop]. rewrite H. reflexivity. Qed.
 
-Lemma c12_loop_assign : forall fuel line rest pt prefix seen ow ub k value0 v rest' ub',
-  c12_classify line = C12Assign k value0 -> c12_value value0 rest ub = (v, rest', ub') ->
-  c12_ts (c12_ini_loop (S fuel) (line :: rest) pt prefix seen ow ub) =
+Lemma c12_loop_assign : forall qhash fuel line rest pt prefix seen ow ub k value0 v rest' ub',
+  c12_classify qhash line = C12Assign k value0 -> c12_value value0 rest ub = (v, rest', ub') ->
+  c12_ts (c12_ini_loop qhash (S fuel) (line :: rest) pt prefix seen ow ub) =
   match c12_store pt seen ow (prefix ++ k) v with
-  | inl (pt', seen') => c12_ts (c12_ini_loop fuel rest' pt' prefix seen' ow ub')
+  | inl (pt', seen') => c12_ts (c12_ini_loop qhash fuel rest' pt' prefix seen' ow ub')
   | inr e => e
   end.
 Proof.
@@ -293,12 +349,12 @@ Qed.
 Lemma c12_ltrim_quote : forall q s, c12_is_quote q = true -> c12_ltrim (q :: s) = q :: s.
 Proof. intros q s Hq. unfold c12_ltrim. cbn. rewrite (c12_quote_not_ws q Hq). reflexivity. Qed.
 
-Lemma c12_simple_doc_loop : forall ls fuel pt prefix seen ow ub,
+Lemma c12_simple_doc_loop : forall qhash ls fuel pt prefix seen ow ub,
   forallb c12_sline_ok ls = true -> length (flat_map c12_render_sline ls) < fuel ->
-  c12_ts (c12_ini_loop fuel (flat_map c12_render_sline ls) pt prefix seen ow ub) =
+  c12_ts (c12_ini_loop qhash fuel (flat_map c12_render_sline ls) pt prefix seen ow ub) =
   c12_store_all (c12_sdoc_assigns ls prefix) pt seen ow.
 Proof.
-  induction ls as [|l ls IH]; intros fuel pt prefix seen ow ub Hok Hlen.
+  intros qhash. induction ls as [|l ls IH]; intros fuel pt prefix seen ow ub Hok Hlen.
   - destruct fuel; [cbn in Hlen; lia|]. reflexivity.
   - destruct fuel as [|fuel]; [cbn in Hlen; lia|].
     cbn [forallb] in Hok. apply andb_true_iff in Hok as [Hl Hls].
@@ -306,47 +362,52 @@ Proof.
     destruct l as [b|b text|b0 b1 name b2 trail|b0 key b1 b2 value b3 comment
                    |b0 key b1 b2 q l0 b3 comment|b0 key b1 b2 q l0 mid lastl b3];
       cbn [c12_render_sline app length] in *.
-    + eapply eq_trans; [apply c12_loop_skip; apply (c12_classify_blank b Hl)|].
+    + eapply eq_trans; [apply c12_loop_skip; apply (c12_classify_blank qhash b Hl)|].
       cbn [c12_sdoc_assigns]. apply IH; [exact Hls|lia].
-    + eapply eq_trans; [apply c12_loop_skip; apply (c12_classify_comment b text Hl)|].
+    + eapply eq_trans; [apply c12_loop_skip; apply (c12_classify_comment qhash b text Hl)|].
       cbn [c12_sdoc_assigns]. apply IH; [exact Hls|lia].
-    + eapply eq_trans; [apply c12_loop_prefix; apply (c12_classify_header _ _ _ _ _ Hl)|].
+    + eapply eq_trans; [apply c12_loop_prefix; apply (c12_classify_header qhash _ _ _ _ _ Hl)|].
       cbn [c12_sdoc_assigns]. apply IH; [exact Hls|lia].
     + cbn [c12_sline_ok] in Hl. repeat (apply andb_true_iff in Hl as [Hl ?]).
       assert (HW : c12_nochar "#" (value ++ b3) = true).
       { rewrite c12_no_app. rewrite (c12_blank_no "#" b3 c12_ws_not_hash) by assumption. rewrite andb_true_r. assumption. }
+      assert (Hnq : match c12_ltrim ((value ++ b3) ++ comment) with q :: _ => c12_is_quote q = false | [] => True end).
+      { destruct value as [|v0 value'].
+        - cbn [app]. rewrite (c12_ltrim_blank_app b3 _ ltac:(assumption)).
+          destruct comment as [|c cm]; [exact I|]. cbn in H. apply Ascii.eqb_eq in H. subst c. reflexivity.
+        - destruct (c12_tightb_tight _ ltac:(eassumption)) as [Hvl _].
+          cbn [app]. unfold c12_ltrim. cbn. rewrite (c12_ltrim_head _ _ Hvl).
+          match goal with Hx : negb (c12_is_quote v0) = true |- _ => apply negb_true_iff in Hx; exact Hx end. }
       eapply eq_trans.
       { eapply c12_loop_assign.
         - replace (b0 ++ key ++ b1 ++ "="%char :: b2 ++ value ++ b3 ++ comment)
             with (b0 ++ key ++ b1 ++ "="%char :: b2 ++ (value ++ b3) ++ comment) by (now rewrite <- app_assoc).
-          apply c12_classify_assign_gen; assumption.
+          apply c12_classify_assign_plain; assumption.
         - apply c12_value_plain; assumption. }
       cbn [c12_sdoc_assigns c12_store_all].
       destruct (c12_store pt seen ow (prefix ++ key) value) as [[pt' seen']|[pt' st]]; [apply IH; [exact Hls|lia]|reflexivity].
     + cbn [c12_sline_ok] in Hl. repeat (apply andb_true_iff in Hl as [Hl ?]).
       assert (Hq : c12_is_quote q = true) by assumption.
-      assert (HW : c12_nochar "#" (q :: l0 ++ q :: b3) = true).
-      { cbn [c12_nochar forallb]. fold (c12_nochar "#" (l0 ++ q :: b3)). rewrite c12_no_app.
-        cbn [c12_nochar forallb]. fold (c12_nochar "#" b3).
+      assert (HX : c12_nochar "#" (l0 ++ q :: b3) = true).
+      { rewrite c12_no_app. cbn [c12_nochar forallb]. fold (c12_nochar "#" b3).
         rewrite (c12_blank_no "#" b3 c12_ws_not_hash) by assumption.
         rewrite (c12_quote_hash q Hq). cbn. rewrite andb_true_r. assumption. }
       eapply eq_trans.
       { eapply c12_loop_assign.
-        - apply (c12_classify_assign_gen b0 key b1 b2 (q :: l0 ++ q :: b3) comment); assumption.
-        - rewrite (c12_ltrim_quote q _ Hq). apply c12_value_quoted1; assumption. }
+        - apply (c12_classify_assign_quoted qhash b0 key b1 b2 q (l0 ++ q :: b3) comment); try assumption.
+          right. apply (c12_closed q l0 b3 Hq). assumption.
+        - apply c12_value_quoted1; assumption. }
       cbn [c12_sdoc_assigns c12_store_all].
       destruct (c12_store pt seen ow (prefix ++ key) l0) as [[pt' seen']|[pt' st]]; [apply IH; [exact Hls|lia]|reflexivity].
     + cbn [c12_sline_ok] in Hl. repeat (apply andb_true_iff in Hl as [Hl ?]).
       assert (Hq : c12_is_quote q = true) by assumption.
-      assert (HW : c12_nochar "#" (q :: l0) = true).
-      { cbn [c12_nochar forallb]. fold (c12_nochar "#" l0). rewrite (c12_quote_hash q Hq). cbn. assumption. }
       destruct (c12_value_quotedN q l0 mid lastl b3 (flat_map c12_render_sline ls) ub Hq ltac:(assumption) ltac:(assumption)) as [ub' E].
       eapply eq_trans.
       { eapply c12_loop_assign.
         - replace (b0 ++ key ++ b1 ++ "="%char :: b2 ++ q :: l0)
             with (b0 ++ key ++ b1 ++ "="%char :: b2 ++ (q :: l0) ++ []) by (now rewrite app_nil_r).
-          apply c12_classify_assign_gen; try assumption. reflexivity.
-        - rewrite (c12_ltrim_quote q _ Hq). rewrite <- app_assoc. exact E. }
+          apply (c12_classify_assign_quoted qhash b0 key b1 b2 q l0 []); try assumption; [reflexivity|left; reflexivity].
+        - rewrite <- app_assoc. exact E. }
       cbn [c12_sdoc_assigns c12_store_all].
       destruct (c12_store pt seen ow (prefix ++ key) _) as [[pt' seen']|[pt' st]]; [|reflexivity].
       apply IH; [exact Hls|]. rewrite app_length in Hlen. cbn in Hlen. lia.
@@ -356,11 +417,11 @@ Qed.
    comments, group headers vs dotted keys, plain / quoted / multi-line quoted values), every
    pre-existing tree and both overwrite modes, readINITree does exactly "store the written
    (full key, value) list in order" *)
-Lemma c12_roundtrip : forall ls pt ow,
+Lemma c12_roundtrip : forall qhash ls pt ow,
   forallb c12_sline_ok ls = true ->
-  c12_ts (c12_parse_ini_lines (flat_map c12_render_sline ls) pt ow) = c12_store_all (c12_sdoc_assigns ls []) pt [] ow.
+  c12_ts (c12_parse_ini_lines qhash (flat_map c12_render_sline ls) pt ow) = c12_store_all (c12_sdoc_assigns ls []) pt [] ow.
 Proof.
-  intros ls pt ow Hok. unfold c12_parse_ini_lines.
+  intros qhash ls pt ow Hok. unfold c12_parse_ini_lines.
   apply c12_simple_doc_loop; [exact Hok|lia].
 Qed.
 
@@ -390,13 +451,13 @@ Proof.
   - cbn [c12_join_lines]. rewrite (c12_lines_app l _ Hl). f_equal. apply IH; [discriminate|exact Hls].
 Qed.
 
-Lemma c12_roundtrip_bytes : forall ls pt ow,
+Lemma c12_roundtrip_bytes : forall qhash ls pt ow,
   forallb c12_sline_ok ls = true ->
   forallb (c12_nochar "010") (flat_map c12_render_sline ls) = true ->
-  c12_ts (c12_parse_ini (c12_join_lines (flat_map c12_render_sline ls)) pt ow) =
+  c12_ts (c12_parse_ini qhash (c12_join_lines (flat_map c12_render_sline ls)) pt ow) =
   c12_store_all (c12_sdoc_assigns ls []) pt [] ow.
 Proof.
-  intros ls pt ow Hok Hnl. unfold c12_parse_ini.
+  intros qhash ls pt ow Hok Hnl. unfold c12_parse_ini.
   destruct (flat_map c12_render_sline ls) as [|x r] eqn:E.
   - destruct ls as [|l ls]; [reflexivity|].
     destruct l; cbn in E; discriminate.
